@@ -137,6 +137,15 @@ func checkC06(c *Ctx) Meta {
 	c.pushAlias("C18-", "C06-HD-")
 	checkC18(c)
 	c.popAlias()
+	// issued ordinals survive a restart: the store's own rules (C19: bucket paths, depth, prefixes — a read-only
+	// bucket that cannot see its sub-buckets reloads a keystore without its keys) and the wallet's transaction
+	// and error discipline (C12: a keystore that fails to load fails the wallet, it is not skipped) as premises
+	c.pushAlias("C19-", "C06-LDB-")
+	checkC19(c)
+	c.popAlias()
+	c.pushAlias("C12-", "C06-TX-")
+	checkC12(c)
+	c.popAlias()
 	c.Rule("C06-RMW", "in nextAddresses the counter read, the derivation, the counter advance and the key persist form one read-modify-write: a.mu held throughout, getChildNum dominates updateChildNum on the same bucket and branch polarity, the value written is the value read plus unit increments only, each persisted key is stored under the (branch, index) of the very address it belongs to", 5)
 	c.Rule("C06-ORDINAL", "the ordinal returned with a new plot key is the persisted index of that same key; a later ordinal lookup returns the index of the entry found under the address derived from the argument", 2)
 	c.Rule("C06-LOCK", "issuance and lookup run under the manager lock and inside one db.Update", 3)
@@ -708,6 +717,11 @@ func checkC05(c *Ctx) Meta {
 	c.pushAlias("C12-", "C05-TX-")
 	checkC12(c)
 	c.popAlias()
+	// the scalar handed to the curve code is the derived key at its full width (the C18 width rules over the
+	// keystore and hdkeychain packages as premises of 'verifies under the requested key')
+	c.pushAlias("C18-", "C05-HD-")
+	checkC18(c)
+	c.popAlias()
 	c.Rule("C05-LOOKUP", "SignHash/SignMessage look the signing key up under the address derived from the requested public key and sign the caller's digest (the hash argument, or HashH of the message)", 2)
 	c.Rule("C05-BIND", "the private key cached for an address is re-derived from that address's own (branch, index): the external test selects the external branch key; the recorded path of a new address is the path its key was derived with; every entry is re-derived at unlock; a new key is persisted under its own (branch, index)", 5)
 	c.Rule("C05-GATE", "signing happens only while unlocked and only with a non-nil private key; an unknown key fails before signing", 3)
@@ -756,14 +770,21 @@ func checkC05(c *Ctx) Meta {
 			}
 		}
 		var next *ssa.Next
-		f = hostFn(f, st)
-		allInstrs(f, func(in ssa.Instruction) {
+		// the loop and the store may sit in different functions (the loop body moved into a helper that stores
+		// the key and reports by error): the rule is evaluated in the function that holds the loop, where a call
+		// of a helper that stores the key on every successful return stands for the store (reach)
+		allInstrsNew(f, func(in ssa.Instruction) {
 			if nx, ok := in.(*ssa.Next); ok {
 				if rg, isR := nx.Iter.(*ssa.Range); isR && backSlice(rg.X).hasField(tAddrMgr, "addrs") {
 					next = nx
 				}
 			}
 		})
+		if next != nil {
+			f = hostFn(f, next)
+		} else {
+			f = hostFn(f, st)
+		}
 		switch {
 		case st == nil || next == nil:
 			c.Bad("C05-BIND", key, c.Pos(f.Pos()), "reason=anchor-missing: the loop over a.addrs storing privKey")
@@ -1270,7 +1291,28 @@ func checkRederiveOwnPath(c *Ctx, rule string) {
 				sameEntry := backSlice(callArgs(idxChild)[0]).has(base) || sameOriginValue(f, fieldBaseOf(callArgs(idxChild)[0]), base)
 				// branch selection
 				recv := callRecv(idxChild)
-				okBranch, whyB := branchPolarity(hostFn(f, idxChild), recv)
+				host := hostFn(f, idxChild)
+				// the branch key handed to a per-entry helper: follow the parameter to the argument at the helper's
+				// call site, where the branch is selected
+				for depth := 0; depth < 3; depth++ {
+					par, isPar := recv.(*ssa.Parameter)
+					if !isPar || par.Parent() == nil || !gNewFuncs[par.Parent()] {
+						break
+					}
+					sites := sitesOf(par.Parent())
+					pi := -1
+					for i, q := range par.Parent().Params {
+						if q == par {
+							pi = i
+						}
+					}
+					if len(sites) != 1 || pi < 0 || pi >= len(sites[0].Common().Args) {
+						break
+					}
+					recv = sites[0].Common().Args[pi]
+					host = sites[0].Parent()
+				}
+				okBranch, whyB := branchPolarity(host, recv)
 				ok = sameEntry && okBranch
 				why = fmt.Sprintf("same-entry=%v branch-selection=%v (%s)", sameEntry, okBranch, whyB)
 			}
